@@ -13,8 +13,8 @@
 
    Where the documentation is silent the validator follows the implementation (so the equivalence theorem is total) and
    `doc_silent_*` marks those inputs for the check script, which never counts them as failing inputs:
-     `Debug` (undocumented option), shared options inside a member `actor(..)` other than channel / edit / show
-     (lib, name, debut, file), any `edit` at family level or in a member that is not one of the documented forms.
+     `Debug` (undocumented option), lib / name / debut / file inside a member `actor(..)`,
+     a family-level `edit` mentioning script / live (lib.rs and the help text AVAIL_FAMILY disagree).
    The inner grammar of `edit(..)` is delegated to the model's edit parser (v_edit); its documented rules are separate lemmas. *)
 From Coq Require Import List String Ascii NArith ZArith Bool.
 Import ListNotations.
@@ -44,8 +44,9 @@ Definition bare (m : meta) : bool := match m with MPath [_] => true | _ => false
 Definition names_ctor (m : meta) : bool := is_ident (mpath m) "new" || is_ident (mpath m) "try_new".
 Definition v_filter (m : meta) : bool :=
   match m with MList _ l => forallb bare l && nodupb (map mpath l) && negb (existsb names_ctor l) | _ => false end.
-Definition v_edit (mc : mac) (m : meta) : bool :=
-  is_ok (match mc with Actor => edit_parse edit0 m | Family => edit_parse_family edit0 m end).
+(* inner grammar of edit: `actor` and family members use the actor grammar (script / live parts), the family itself def / imp / trt *)
+Definition v_edit (m : meta) : bool := is_ok (edit_parse edit0 m).
+Definition v_edit_family (m : meta) : bool := is_ok (edit_parse_family edit0 m).
 
 Section Spec.
 Variable fexists : string -> bool.
@@ -56,7 +57,7 @@ Definition v_file (m : meta) : bool := match v_str m with Some s => negb (String
 (* options of `actor` (mc = Actor) and of a family member `actor(..)` (mc = Family) *)
 Definition item_valid (mc : mac) (m : meta) : bool :=
   match mkey m with
-  | KName => v_name m | KLib => v_lib m | KShow => v_flag m | KChannel => v_chan m | KEdit => v_edit mc m
+  | KName => v_name m | KLib => v_lib m | KShow => v_flag m | KChannel => v_chan m | KEdit => v_edit m
   | KDebut => v_flag m | KFile => v_file m
   | KFirstName => match mc with Family => v_name m | Actor => false end
   | KInteract => v_flag m
@@ -73,8 +74,8 @@ Definition lib_den (m : meta) : lib :=
 Definition chan_den (m : meta) : chan :=
   match m with MNV _ (VInt z) => if (0 <? z)%Z then Buffer (Z.to_N z) else Unbounded | _ => Unbounded end.
 Definition leaf_name (m : meta) : string := match mpath m with [x] => x | _ => "" end.
-Definition edit_den (mc : mac) (e : edit) (m : meta) : edit :=
-  match (match mc with Actor => edit_parse e m | Family => edit_parse_family e m end) with Ok e' => e' | _ => e end.
+Definition edit_den (e : edit) (m : meta) : edit := match edit_parse e m with Ok e' => e' | _ => e end.
+Definition edit_den_family (e : edit) (m : meta) : edit := match edit_parse_family e m with Ok e' => e' | _ => e end.
 Definition filter_den (incl : bool) (m : meta) : fset :=
   match m with MList _ l => (if incl then FInclude else FExclude) (map leaf_name l) | _ => (if incl then FInclude else FExclude) [] end.
 
@@ -84,7 +85,7 @@ Definition apply_item (c : acfg) (m : meta) : acfg :=
   | KLib => set_lib (lib_den m) c
   | KShow => set_show true c
   | KChannel => set_chan (chan_den m) c
-  | KEdit => set_edit (edit_den (a_mac c) (a_edit c) m) c
+  | KEdit => set_edit (edit_den (a_edit c) m) c
   | KDebut => set_debut true c
   | KFile => set_file (v_str m) c
   | KFirstName => set_first (v_str m) c
@@ -98,8 +99,10 @@ Definition apply_item (c : acfg) (m : meta) : acfg :=
 Definition denote_actor_from (c : acfg) (l : list meta) : acfg := fold_left apply_item l c.
 
 (* file markers: does the (unique) edit option of the list carry a `file` marker that is in force? *)
-Definition markers (mc : mac) (l : list meta) : bool :=
-  match find_key KEdit l with Some m => edit_active (edit_den mc edit0 m) | None => false end.
+Definition markers (l : list meta) : bool :=
+  match find_key KEdit l with Some m => edit_active (edit_den edit0 m) | None => false end.
+Definition markers_family (l : list meta) : bool :=
+  match find_key KEdit l with Some m => edit_active (edit_den_family edit0 m) | None => false end.
 Definition file_one (l : list meta) : bool :=
   match find_key KFile l with
   | Some m => match v_str m with Some f => match fcount f with FOne => true | _ => false end | None => false end
@@ -107,16 +110,16 @@ Definition file_one (l : list meta) : bool :=
 
 (* ---------- actor ---------- *)
 Definition valid_actor (l : list meta) : bool :=
-  nodupb (map mpath l) && forallb (item_valid Actor) l && Nat.leb (nf l) 1 && (if markers Actor l then file_one l else true).
+  nodupb (map mpath l) && forallb (item_valid Actor) l && Nat.leb (nf l) 1 && (if markers l then file_one l else true).
 
 Definition denote_actor (l : list meta) : cfg :=
   let a := denote_actor_from (set_mac Actor acfg0) l in
-  {| c_top := if markers Actor l then set_attr true a else a; c_members := [] |}.
+  {| c_top := if markers l then set_attr true a else a; c_members := [] |}.
 
 (* ---------- family ---------- *)
 Definition fam_item_valid (m : meta) : bool :=
   match mkey m with
-  | KName => v_name m | KLib => v_lib m | KShow => v_flag m | KChannel => v_chan m | KEdit => v_edit Family m
+  | KName => v_name m | KLib => v_lib m | KShow => v_flag m | KChannel => v_chan m | KEdit => v_edit_family m
   | KDebut => v_flag m | KFile => v_file m
   | KActor => true                     (* validated as a member below *)
   | KRwLock | KMutex => v_flag m
@@ -133,7 +136,7 @@ Definition not_actor_path (p : path) : bool := negb (path_mem p [["actor"]]).
 
 Definition fam_lib (l : list meta) : lib := match find_key KLib l with Some m => lib_den m | None => Std end.
 Definition fam_markers (l : list meta) : bool :=
-  markers Family l || existsb (fun m => markers Family (member_list m)) (members_of l).
+  markers_family l || existsb (fun m => markers (member_list m)) (members_of l).
 
 Definition valid_family (l : list meta) : bool :=
   nodupb (filter not_actor_path (map mpath l)) && forallb fam_item_valid l
@@ -147,7 +150,8 @@ Definition apply_fam_item (c : acfg) (m : meta) : acfg :=
   match mkey m with
   | KRwLock => set_rcv RRwLock c
   | KMutex => set_rcv RMutex c
-  | KName | KLib | KShow | KChannel | KEdit | KDebut | KFile => apply_item c m
+  | KEdit => set_edit (edit_den_family (a_edit c) m) c
+  | KName | KLib | KShow | KChannel | KDebut | KFile => apply_item c m
   | _ => c
   end.
 Definition denote_family_top (l : list meta) : acfg :=
@@ -175,38 +179,18 @@ Definition valid_example (l : list meta) : bool :=
 
 End Spec.
 
-(* ---------- known-finding classes (decidable predicates on the input) ---------- *)
-(* K1 name-not-ident: a `name` / `first_name` string that is not an identifier: format_ident! panics (no diagnostic) *)
-Definition k_name_item (m : meta) : bool :=
-  match mkey m with
-  | KName | KFirstName => match v_str m with Some s => negb (String.eqb s "") && negb (is_ident_str s) | None => false end
-  | _ => false end.
-Definition k_name_member (m : meta) : bool := is_key KActor m && existsb k_name_item (member_list m).
-Definition k_name (l : list meta) : bool := existsb k_name_item l || existsb k_name_member l.
-
-(* K2 leaf-not-bare: a position that only has meaning as a bare word holds `w(..)` or `w = v`; the extra part is dropped silently *)
-Definition single (p : path) : bool := match p with [_] => true | _ => false end.
-Definition sloppy (m : meta) : bool := single (mpath m) && negb (v_flag m).
-Definition k_leaf_item (m : meta) : bool :=
-  match mkey m with
-  | KDebug | KRwLock | KMutex => negb (v_flag m)
-  | KInclude | KExclude => match m with MList _ l => existsb sloppy l | _ => false end
-  | _ => false end.
-Definition k_leaf_member (m : meta) : bool := is_key KActor m && existsb k_leaf_item (member_list m).
-Definition k_leaf (l : list meta) : bool := existsb k_leaf_item l || existsb k_leaf_member l.
-
-(* K4 example: unknown options are skipped, `main` accepts any form, `expand(actor(x))` drops `(x)` *)
-Definition k_example_item (m : meta) : bool :=
-  match xclassify m with
-  | XOther => true
-  | XMain => negb (v_flag m)
-  | XExpand => match m with MList _ l => existsb sloppy l | _ => false end
-  | XPath => false end.
-Definition k_example (l : list meta) : bool := existsb k_example_item l.
-
-(* documentation-silent zones (the check script never reports an input of these zones as a failing input) *)
+(* ---------- documentation-silent zones (the check script never reports an input of these zones as a failing input) ---------- *)
+(* `Debug` is not documented at all; inside a member `actor(..)` the tables list first_name, edit, include|exclude, show, interact, channel:
+   lib / name / debut / file there are silent.  At family level lib.rs documents edit(def, imp(..), trt(..)) while the help text
+   AVAIL_FAMILY shows edit(live(..)): a family-level edit that mentions script / live is a documentation conflict. *)
 Definition doc_silent_member_item (m : meta) : bool :=
-  match mkey m with KLib | KName | KDebut | KFile | KDebug | KEdit => true | _ => false end.
+  match mkey m with KLib | KName | KDebut | KFile | KDebug => true | _ => false end.
 Definition doc_silent_item (m : meta) : bool := match mkey m with KDebug => true | _ => false end.
+Definition names_sol (m : meta) : bool := is_ident (mpath m) "script" || is_ident (mpath m) "live".
+Definition fam_edit_conflict (m : meta) : bool :=
+  is_key KEdit m &&
+  match m with
+  | MList _ kids => existsb (fun x => names_sol x || match x with MList _ ks => is_ident (mpath x) "file" && existsb names_sol ks | _ => false end) kids
+  | _ => false end.
 Definition doc_silent_family (l : list meta) : bool :=
-  has_key KEdit l || existsb (fun m => is_key KActor m && existsb doc_silent_member_item (member_list m)) l.
+  existsb fam_edit_conflict l || existsb (fun m => is_key KActor m && existsb doc_silent_member_item (member_list m)) l.
